@@ -140,11 +140,9 @@ func (m *c12mon) Check(s *sim.Sim, st *sim.Step) []*sim.Violation {
 				m.stats.Count("totp-accepted")
 			} else if s.Cfg.OneTimeTOTP && m.lastTOTP[U] == a.Secret && a.Secret != "" {
 				m.stats.Count("totp-replay-rejected")
-			} else if u := rec.Before.Users[U]; u != nil && u.TOTPSecretKey != "" && a.Secret != "" && rec.HandlerErr == "" {
-				// any judged attempt with another code ends the "in a row"
-				if s.Cfg.OneTimeTOTP && a.Secret != m.lastTOTP[U] {
-					m.lastTOTP[U] = "\x00other"
-				}
+			} else if a.Secret != m.lastTOTP[U] {
+				// any attempt with another input (a wrong code, an empty one) ends the "in a row"
+				m.lastTOTP[U] = "\x00other"
 			}
 		}
 	}
